@@ -85,7 +85,8 @@ def run(tier):
     def add(prog, valid, flags, outkind, src, extra=None):
         nonlocal jid
         jid += 1
-        j = {"id": jid, "prog": prog, "valid": valid, "flags": flags, "out": outkind, "src": src}
+        # with and without a newline after the last line (stdin is read line by line, FILE is mapped as a whole)
+        j = {"id": jid, "prog": prog, "valid": valid, "flags": flags, "out": outkind, "src": src, "final_newline": ((jid * 2654435761) >> 9) % 2 == 0}
         if extra:
             j.update(extra)
         jobs.append(j)
@@ -167,7 +168,7 @@ def run(tier):
     def go(j):
         d = os.path.join(wd, "j%d" % j["id"])
         os.makedirs(d, exist_ok=True)
-        text = "\n".join(j["prog"]) + "\n"
+        text = "\n".join(j["prog"]) + ("\n" if j["final_newline"] else "")
         src = os.path.join(d, "in.asm")
         with open(src, "w") as f:
             f.write(text)
@@ -220,7 +221,7 @@ def run(tier):
         stats["by_output"][j["out"]] = stats["by_output"].get(j["out"], 0) + 1
         R = ref[j["ref"]]
         case = {"key": "asmline %s %s <%s> prog=%s" % (" ".join(j["flags"]), j["out"], j["src"], "; ".join(j["prog"])[:120]), "fam": "asmline", "out": j["out"], "src": j["src"],
-                "flags": j["flags"], "argv": o["argv"], "program": j["prog"], "c": j.get("c")}
+                "flags": j["flags"], "argv": o["argv"], "program": j["prog"], "c": j.get("c"), "final_newline": j["final_newline"]}
         err = o["stderr"].decode("latin-1")
         sig = common.san_summary(err)
         if sig or o["rc"] < 0 or o["rc"] > 1 and o["rc"] != 97:
